@@ -17,7 +17,7 @@ RULE = ('virtual clock; timeouts in {1,2,7,200,1000,1001,9999,10000} ms; (rx) st
         'stop_sending followed by silence of 3T with idle passes: no timeout error. Plus the exhaustive ms->ns conversion table 0..20000 ms '
         'evaluated inside Coq (PrimFloat, vm_compute) against the Python expression the harness uses. All cases replayed on the model.'
         ' (tx, after_max_waits) the whole wftmax budget of Wait frames is used up in time, then the deadline passes: exactly one FlowControlTimeoutError whatever arrives afterwards. (blocking_rx) rxfn advances the virtual clock before handing over a Consecutive Frame (blocking read): the deadline is judged at hand-over; the model sees tick-then-process.'
-        ' In the rx campaign the frame before the gap, when it asks for a Flow Control, is also processed by separate receive-only and transmit-only calls with time in between: the deadline runs from the emission of the Flow Control.')
+        ' In the rx campaign the frame before the gap, when it asks for a Flow Control, is also processed by separate receive-only and transmit-only calls with time in between: the deadline runs from the emission of the Flow Control; and the First Frame is read by a receive-only call followed only by receive-only calls during the gap: no Flow Control has been sent, the deadline runs from the First Frame.')
 ASSUME = ['deadlines are measured at processing instants of the virtual clock (the latency inside one process() call is runtime)']
 
 TIMEOUTS = [1, 2, 7, 200, 1000, 1001, 9999, 10000]
@@ -27,14 +27,14 @@ def deltas(T):
     return [1, 1000, 10**6 if T > 10**6 else 1, T // 3]
 
 
-def gap_ops(rng, total, nidle):
+def gap_ops(rng, total, nidle, do_tx=1):
     """split [total] ns into nidle+1 ticks with idle process() calls in between"""
     cuts = sorted(rng.randint(0, total) for _ in range(nidle))
     ops = []
     prev = 0
     for cpoint in cuts:
         ops.append([0, 'tick', cpoint - prev])
-        ops.append([0, 'proc', 1, 1])
+        ops.append([0, 'proc', 1, do_tx])
         prev = cpoint
     ops.append([0, 'tick', total - prev])
     return ops
@@ -62,8 +62,14 @@ def gen_rx_case(rng):
     # be separate calls with time in between; the deadline then runs from the emission of the Flow Control (the second call)
     fc_point = (pos == 1) or (bs and (pos - 1) % bs == 0)
     split = fc_point and not p.get('listen_mode') and rng.random() < 0.5
+    # the First Frame is read by a receive-only pass and only receive-only passes follow during the gap: no Flow Control has been
+    # sent yet, the deadline runs from the First Frame itself
+    starved = split and pos == 1 and rng.random() < 0.4
     for i, f in enumerate(frames):
-        if i == pos:
+        if starved and i == 0:
+            ops += [[0, 'rx', rid, int(ext), hx(f)], [0, 'proc', 1, 0]] + gap_ops(rng, gap, rng.randint(0, 3), do_tx=0) + [[0, 'proc', 1, 0], [0, 'proc', 0, 1], [0, 'recv']]
+            continue
+        if i == pos and not starved:
             ops += gap_ops(rng, gap, rng.randint(0, 3))
         if split and i == pos - 1:
             ops += [[0, 'rx', rid, int(ext), hx(f)], [0, 'proc', 1, 0], [0, 'tick', rng.choice([T // 2, max(0, T - 1), T // 3])], [0, 'proc', 0, 1], [0, 'recv']]
